@@ -1,3 +1,4 @@
+import Mrpro.Model.Load
 import Mrpro.Lemmas.SrcL
 import Mrpro.Model.KDataOps
 import Mrpro.Lemmas.KDataOpsL
@@ -44,10 +45,25 @@ theorem splitIdx_partition (n size : Nat) (hs : 0 < size) (hd : size ∣ n) :
 theorem splitLabel_shape (nOther : Nat) (sidx : List (List Nat)) (k2 k1 : Nat) :
     (splitLabel nOther sidx k2 k1).length = nOther * sidx.length := M.splitLabel_shape nOther sidx k2 k1
 
-/-- readout oversampling removal keeps the central `n_recon` samples -/
+/-- readout oversampling removal keeps `n_recon` samples inside the readout, and the window is *centred*: the centre sample
+(index `n/2`, position 0 of the centred FFT convention) of the long readout is the centre sample of the short one -/
 theorem cropRange_centre (nEnc nRecon : Nat) (h : nRecon ≤ nEnc) :
-    (cropRange nEnc nRecon).2 - (cropRange nEnc nRecon).1 = nRecon ∧ (cropRange nEnc nRecon).2 ≤ nEnc := by
+    (cropRange nEnc nRecon).2 - (cropRange nEnc nRecon).1 = nRecon ∧ (cropRange nEnc nRecon).2 ≤ nEnc
+    ∧ nEnc / 2 - (cropRange nEnc nRecon).1 = nRecon / 2 ∧ (cropRange nEnc nRecon).1 ≤ nEnc / 2 := by
   unfold cropRange; simp only; omega
+
+/-- hence cropping the Cartesian readout coordinate `j − n/2` to the window gives the readout coordinate of the short readout: the
+cropped trajectory is the one the centred FFT of the new size refers to (data and trajectory stay paired) -/
+theorem cropRange_traj (nEnc nRecon : Nat) (h : nRecon ≤ nEnc) (j : Nat) (hj : j < nRecon) :
+    M.kfreq nEnc (nEnc / 2 : Nat) false ((cropRange nEnc nRecon).1 + j) = M.kfreq nRecon (nRecon / 2 : Nat) false j := by
+  unfold cropRange M.kfreq
+  simp only [Bool.false_eq_true, if_false]
+  push_cast
+  omega
+
+/-- witness: the window of the pinned commit, `(nEnc − nRecon) // 2`, moved the centre for an even readout and an odd
+reconstruction size (10 → 5: centre 5 ↦ 3 instead of 2) -/
+theorem cropRangeShipped_moves_centre : 10 / 2 - (M.cropRangeShipped 10 5).1 ≠ 5 / 2 := by decide
 
 /-! ### Tie to the source: integer code translated from `/repo` on this run -/
 
